@@ -245,7 +245,7 @@ let () =
           else if ferr = "nil" && payload <> accepted then
             (* the source failed with bytes still buffered: a successful Flush must send them *)
             Viol "bytes accepted by ReadFrom before its source failed were not sent by the following successful Flush"
-          else if int_of_string buffered > 0 && ferr = "nil" && not (List.nth fs (List.length fs - 1)).pf_header.h_fin then
-            Viol "Flush of buffered bytes did not end the message with a final frame"
+          else if ferr = "nil" && fs <> [] && not (List.nth fs (List.length fs - 1)).pf_header.h_fin then
+            Viol "a successful Flush after ReadFrom did not end the message with a final frame"
           else Pass (mi > 0))
     | _ -> Diff "malformed line")
